@@ -226,6 +226,9 @@ DEFINE_TEXTS = [
     "u $a\n%define a x\n",
     "%define a 1\n%define b $a$a\n<s>\n  k2 $b\n  u ${b}0\n</s>\n<s>\n  k2 x$a\n</s>\n",
     "%define a-b x\nu v\n",
+    "%define base one\n%define base two\nu $base\n",          # rejected: conflicting redefinition
+    "%define base one\nu $base\n%define Base one\n<s>\n  u $BASE\n</s>\n",   # accepted: same value again
+    "%define a x\n%define b $a\n%define b x\nu $b\n",
 ]
 
 
